@@ -223,10 +223,14 @@ def truth(c, cache=None, atom=None):
         if c.op in ('bor', 'or'):
             a, b = t(c.args[0]), t(c.args[1]); return (a[0] or b[0], a[1] and b[1])
         if c.op in ('lt', 'le', 'gt', 'ge', 'eq', 'ne') and len(c.args) == 2 and all(X.is_float(x.ty) or X.is_int(x.ty) for x in c.args):
-            a, b = frange(c.args[0], cache, atom), frange(c.args[1], cache, atom)
             op = c.op
+            na, nb = c.args
             if op in ('gt', 'ge'):
-                a, b = b, a; op = {'gt': 'lt', 'ge': 'le'}[op]
+                na, nb = nb, na; op = {'gt': 'lt', 'ge': 'le'}[op]
+            if op == 'lt' and _minmax_leaves(na, 'call:max') is not None and _minmax_leaves(na, 'call:max') == _minmax_leaves(nb, 'call:min'):
+                # max(S) < min(S) over the same operands never holds (f32::max / min skip NaN operands; all NaN: the comparison is false)
+                return (False, True)
+            a, b = frange(na, cache, atom), frange(nb, cache, atom)
             nan = a[2] or b[2]
             if op == 'lt': return (a[0] < b[1], a[1] >= b[0] or nan)
             if op == 'le': return (a[0] <= b[1], a[1] > b[0] or nan)
@@ -236,6 +240,16 @@ def truth(c, cache=None, atom=None):
             return (not single or nan, overlap)
         return (True, True)
     return t(c)
+
+def _minmax_leaves(n, op):
+    """ids of the operands of a nest of f32::max (or min) calls with at least two operands, else None"""
+    if n.op != op: return None
+    out = set()
+    def go(m):
+        if m.op == op: go(m.args[0]); go(m.args[1])
+        else: out.add(m.id)
+    go(n)
+    return frozenset(out)
 
 def pc_feasible(pc, atom=None):
     """False only when some conjunct of the path condition can never hold (for any argument, NaN included)."""
